@@ -73,6 +73,10 @@ def strip_comments(src):
         elif src.startswith('--', i):
             while i < n and src[i] != '\n':
                 i += 1
+        elif src[i] == "'" and re.match(r"'(\\x[0-9a-fA-F]{2}|\\u\{?[0-9a-fA-F]+\}?|\\.|[^\\'])'", src[i:i + 12]):
+            m = re.match(r"'(\\x[0-9a-fA-F]{2}|\\u\{?[0-9a-fA-F]+\}?|\\.|[^\\'])'", src[i:i + 12])
+            out.append("' '")
+            i += m.end()
         elif src[i] == '"':
             j = i + 1
             while j < n and src[j] != '"':
